@@ -72,4 +72,128 @@ def c01(tier, seed, wd, replay):
     return run.finish(nontrivial_filter=lambda c: c in nontrivial, mandatory=mandatory)
 
 
-CHECKS = {"C01": c01}
+
+def _generic(prop, tier, seed, wd, replay, rule, quick_cfgs, thorough_cfgs, mandatory, sim=None, cached_first=False):
+    if replay:
+        return replay_structural(prop, replay, wd)
+    run = Run(prop, tier, seed)
+    run.rule = rule
+    nontrivial = set()
+    cfgs = quick_cfgs if tier == "quick" else thorough_cfgs
+    for name, consts in cfgs:
+        recs, _ = ST.run_config(run, prop, name, consts, wd, caching=False)
+        for r in recs:
+            if r["pre"] != r["post"] or r["res"]["err"]:
+                nontrivial.add(r["cls"])
+    if tier == "thorough":
+        if cached_first:
+            name, consts = cfgs[0]
+            ST.run_config(run, prop, name, consts, wd, caching=True)
+        if sim:
+            ST.run_config(run, prop, sim[0][0], sim[0][1], wd, simulate=sim[1], depth=sim[2], seed=seed + 1)
+    run.exhaustive = True
+    run.assumptions = ASSUME_COMMON
+    return run.finish(nontrivial_filter=lambda c: c in nontrivial, mandatory=mandatory)
+
+
+UNI = dict(NV=2, NU=2, NL=0, NLaw=2, Fams={"uni", "new"}, InitBV=1, InitBU=1, MaxArg=2)
+
+
+def c02(tier, seed, wd, replay):
+    rule = ("every transition of the bounded universe-membership model (four membership calls from either side, "
+            "Vertex(universes=..) and Universe(vertices=..) with every argument sequence incl. repeats, universes as "
+            "members of universes and of themselves) is executed on fresh real objects; TLC evaluates UniSym, "
+            "NoDupMembers, NoDupUnis on the real post-state and the insertion-order / atomic-raise action clauses on "
+            "(pre, post); class = call x membership/aliasing pattern; non-trivial = state changed or call raised")
+    quick = [ST.cfg("unis-1v2u", **{**UNI, "NV": 1}), ST.cfg("unis-2v1u", **{**UNI, "NU": 1, "NLaw": 1})]
+    thorough = [ST.cfg("unis-2v2u", **UNI),
+                ST.cfg("unis-3v2u", **{**UNI, "NV": 3, "InitBV": 2}),
+                ST.cfg("unis-1v3u", **{**UNI, "NV": 1, "NU": 3, "NLaw": 3, "InitBV": 1, "InitBU": 1})]
+    mandatory = [lambda c: c.startswith("urem:member0"), lambda c: c.startswith("orem:member0"),
+                 lambda c: "self-member" in c, lambda c: c.startswith("uadd:member1"),
+                 lambda c: c.startswith("vnew:") and "dup" in c, lambda c: c.startswith("unew:") and "dup" in c,
+                 lambda c: c.startswith("urem:member1") and "inner" in c]
+    sim = (ST.cfg("unis-sim-3v3u", **{**UNI, "NV": 3, "NU": 3, "NLaw": 3, "MaxArg": 3}), "num=300", 30)
+    return _generic("C02", tier, seed, wd, replay, rule, quick, thorough, mandatory, sim=sim)
+
+
+def c03(tier, seed, wd, replay):
+    rule = ("Follow mode: for every transition of the bounded model executed on fresh real objects, the complete "
+            "projected state after the call and the return value / raise must be one of the outcomes Post(pre, call) "
+            "of spec/EGStructure.tla; configurations: links (2 vertices x 2 links x 3 kinds, all calls and aliasings), "
+            "n-ary links / 3-entry ends, universes + constructors, and a mixed one where link, universe and laws "
+            "calls interleave; class = call x aliasing pattern; non-trivial = state changed or call raised")
+    mixed = ST.cfg("mixed-2v1u1l", NV=2, NU=1, NL=1, NLaw=2, Kinds={"D", "U"}, Fams={"link", "expl", "uni", "laws"},
+                   InitBV=2, InitBU=1, MaxArg=1)
+    quick = [ST.cfg("links-2x2-e2"),
+             ST.cfg("links-2x1-e3-N", NL=1, UseN=True, MaxEnds=3, MaxArg=3, Kinds={"D", "T"}),
+             ST.cfg("unis-1v2u", **{**UNI, "NV": 1}), mixed]
+    thorough = [ST.cfg("links-2x2-e2"),
+                ST.cfg("links-2x2-e3-N", UseN=True, MaxEnds=3, Kinds={"D", "U"}),
+                ST.cfg("links-3x2-e2", NV=3, InitBV=3, Kinds={"D", "U"}),
+                ST.cfg("links-2x3-e2", NL=3, Kinds={"D", "T"}),
+                ST.cfg("unis-2v2u", **UNI), mixed,
+                ST.cfg("mixed-2v1u2l-unends", NV=1, NU=1, NL=2, NLaw=1, Kinds={"D", "U"},
+                       Fams={"link", "expl", "uni"}, InitBV=1, InitBU=1, UniEnds=True, MaxArg=1)]
+    mandatory = [lambda c: c.startswith("link") and "dontdup1" in c and "joining1" in c and "reverse" in c,
+                 lambda c: c.startswith("link") and "dontdup1" in c and "self" in c and "joining1" in c,
+                 lambda c: c.startswith("unlink:") and "self" in c and "joining1" in c,
+                 lambda c: c.startswith("unlink:") and "joining2" in c,
+                 lambda c: c.startswith("setv:") and "new=other" in c,
+                 lambda c: c.startswith("setv:") and "new=old" in c,
+                 lambda c: c.startswith("setv:") and "self-loop" in c and "new=fresh" in c]
+    sim = (ST.cfg("links-sim-4x4", NV=4, InitBV=4, NL=4, MaxEnds=2, Kinds={"D", "U", "T", "D2", "U2"}), "num=300", 30)
+    return _generic("C03", tier, seed, wd, replay, rule, quick, thorough, mandatory, sim=sim, cached_first=True)
+
+
+LAWS = dict(NV=0, NU=2, NL=0, NLaw=4, Fams={"laws", "new"}, InitBV=0, InitBU=1, MaxArg=0)
+
+
+def c19(tier, seed, wd, replay):
+    rule = ("every transition of the bounded laws model (Universe.laws = L / None, UniverseLaws.applies_to = u / None "
+            "from either side, Universe() and Universe(laws=L) incl. a law set already in use) is executed on fresh "
+            "real objects; TLC evaluates LawsSym on the real post-state and that every assignment succeeded; the rule "
+            "attributes of law sets are read back and re-assigned by the executor and judged by TLC; class = call x "
+            "(current binding, target binding) pattern; non-trivial = state changed or call raised")
+    if replay and _is_attr_replay(replay):
+        return replay_lawattrs(replay, wd)
+    quick = [ST.cfg("laws-2u4L", **LAWS)]
+    thorough = [ST.cfg("laws-3u5L", **{**LAWS, "NU": 3, "NLaw": 5})]
+    mandatory = [lambda c: c == "setlaws:curNone,newfree" or c == "setlaws:curNone,newinuse",
+                 lambda c: c.startswith("setlaws:") and "newinuse" in c,
+                 lambda c: c.startswith("setapp:") and "newhaslaws" in c,
+                 lambda c: c.startswith("setapp:curset,newNone"),
+                 lambda c: c.startswith("unew:") and "lawsinuse" in c]
+    if replay:
+        return replay_structural("C19", replay, wd)
+    run = Run("C19", tier, seed)
+    run.rule = rule
+    nontrivial = set()
+    for name, consts in (quick if tier == "quick" else thorough):
+        recs, _ = ST.run_config(run, "C19", name, consts, wd, caching=False)
+        for r in recs:
+            if r["pre"] != r["post"] or r["res"]["err"]:
+                nontrivial.add(r["cls"])
+    lawattrs(run, wd, tier)
+    run.exhaustive = True
+    run.assumptions = ASSUME_COMMON
+    return run.finish(nontrivial_filter=lambda c: c in nontrivial or c.startswith("lawattr"), mandatory=mandatory)
+
+
+def _is_attr_replay(path):
+    with open(path) as f:
+        return json.load(f).get("kind") == "lawattrs"
+
+
+def lawattrs(run, wd, tier):
+    """placeholder: filled in below"""
+    from . import lawattrs as LA
+    LA.check(run, wd, tier)
+
+
+def replay_lawattrs(path, wd):
+    from . import lawattrs as LA
+    return LA.replay(path, wd)
+
+
+CHECKS = {"C01": c01, "C02": c02, "C03": c03, "C19": c19}
